@@ -96,6 +96,9 @@ let () =
       let ops_l = List.map wop_of_tok (split ',' ops) in
       let gobs = List.map obs_of_tok (split ',' obs) in
       let log = bytes_list_of_tok log in
+      (* "t<k>" / "d<k>": the destination fails from its k-th write on with a timeout-type error (the models know one
+         kind of destination failure: what the writer owes the peer does not depend on the kind) *)
+      let fail = if String.length fail > 1 && (fail.[0] = 't' || fail.[0] = 'd') then String.sub fail 1 (String.length fail - 1) else fail in
       let fail_at = if fail = "-" then None else Some (ni (int_of_string fail)) in
       let masks = masks_of (List.concat log) in
       (match mk_writer ctor st op exts masks fail_at with
